@@ -124,14 +124,20 @@ type Result struct {
 	// Classes are labels for the evidence counters ("fmt:GSUB5.2",
 	// "flag:markset", "big:gsub1_2", "actions:many", ...), sorted, unique.
 	Classes []string
-	// Overflow lists the 16-bit offset sites that the case exceeds on
-	// purpose (empty: every offset of every subtable fits when the parts are
-	// laid out in specification order, and the lookup list is representable
-	// with extension subtables).
+	// Overflow lists the 16-bit offset sites inside subtables that the case
+	// exceeds on purpose; such a value is not representable in the binary
+	// format (empty: every offset of every subtable fits when the parts are
+	// laid out in specification order, and the lookup list is representable,
+	// if need be with extension subtables).
 	Overflow []string
-	// NeedsExtension is set when the generator knows that 16-bit lookup or
-	// subtable offsets cannot hold the list without extension subtables.
-	NeedsExtension bool
+	// Sites lists every site name for which Options.Skip was consulted and
+	// which the case contains: the elements of Overflow plus
+	// SiteSubtableOffset / SiteLookupOffset for lists that need extension
+	// subtables but are representable.
+	Sites []string
+	// Desc describes the parameters of the pattern-built (large) parts, so
+	// that a log line reproduces them.
+	Desc []string
 }
 
 // gctx carries the state of one generation.
@@ -631,6 +637,7 @@ func GenLookups(env *Env, opt Options) *rapid.Generator[*Result] {
 		c.label("mode:" + opt.Mode.String())
 		res.Classes = sortedKeys(c.classes)
 		sort.Strings(res.Overflow)
+		sort.Strings(res.Sites)
 		return res
 	})
 }
